@@ -112,10 +112,8 @@ class BaseCurve(Intface_BaseCurve):
             vecta, vectb = tuple(self.knotvector), tuple(other.knotvector)
             vectmul = heavy.MathOperations.knotvector_mul(vecta, vectb)
             matrix3d = heavy.MathOperations.mul_spline_curve(vecta, vectb)
-            ctrlpoints = np.tensordot(
-                np.moveaxis(self.ctrlpoints, 0, -1), matrix3d, axes=1
-            )
-            ctrlpoints = ctrlpoints @ other.ctrlpoints
+            ctrlpoints = np.tensordot(matrix3d, self.ctrlpoints, axes=(0, 0))
+            ctrlpoints = np.tensordot(ctrlpoints, other.ctrlpoints, axes=(1, 0))
             curve = Curve(vectmul, ctrlpoints)
             return curve
         numa, dena = self.fraction()
